@@ -23,7 +23,7 @@ PROPS = {
         assumptions=["inputs are capped at 4 KiB and nesting depth 200 (deeper nesting is probed separately by the deep-nesting canary)",
                      "a bare keyword used as an attribute name, and lexical forms outside the documented subset (comments, raw strings, numbers), are UNSPECIFIED: only no-crash and round-trip are checked"],
         quick=dict(checks=3000, timeout=900, env={"VERIF_GRPC_DIV": 10}),
-        thorough=dict(checks=40000, shards=16, timeout=3000, env={"VERIF_GRPC_DIV": 20}),
+        thorough=dict(checks=40000, shards=16, timeout=3000, env={"VERIF_GRPC_DIV": 20}, fuzz=[dict(target="FuzzC08Filter", seconds=180)]),
     ),
     "C05": dict(
         run="^TestC05$",
@@ -35,7 +35,7 @@ PROPS = {
               "been published between the two; distinct by hash of the operation list"),
         assumptions=["virtual clock: time.Now/Since/Until in actions/ and services/ are redirected by the build overlay", "SQLite backend only",
                      "forwards into an ordered dead-letter subscription from different source topics with one key are not ordered by the statement (treated as 'may')"],
-        quick=dict(checks=250, timeout=900),
+        quick=dict(checks=900, timeout=900),
         thorough=dict(checks=600, shards=16, timeout=3000),
     ),
     "C01": dict(
@@ -43,7 +43,7 @@ PROPS = {
         level="exploration",
         rule="histories of real API calls drawn by a rapid state machine from the reference model's current state (virtual clock; profile C01), followed by a drain phase where stated; oracle: observation-driven reference model of Pub/Sub semantics (must / must-not / may sets per pull); 1-3 topics, 1-4 subscriptions with every configuration dimension, publishes, pulls, acks, modacks, stream nacks, seeks, snapshots, sweeps, prune jobs, expiry runs, failed requests, clock advances, then drain until the model owes nothing; non-trivial = history with >=1 redelivery after a lease lapse or nack and >=1 of {seek, sweep, prune job, delete}; distinct by hash of the operation list",
         assumptions=['virtual clock: time.Now/Since/Until in actions/ and services/ are redirected by the build overlay', 'SQLite backend only', "every time comparison carries a 10 ms margin; anything inside a margin or inside the <1 s jitter window is 'may'"],
-        quick=dict(checks=400, timeout=1200),
+        quick=dict(checks=1200, timeout=1200),
         thorough=dict(checks=700, shards=16, timeout=3000),
     ),
     "C02": dict(
@@ -51,7 +51,7 @@ PROPS = {
         level="exploration",
         rule="histories of real API calls drawn by a rapid state machine from the reference model's current state (virtual clock; profile C02), followed by a drain phase where stated; oracle: observation-driven reference model of Pub/Sub semantics (must / must-not / may sets per pull); payloads from a JSON corpus (whitespace, unicode, HTML-sensitive, huge numbers) and generated strings, attribute maps, unicode ordering keys; fidelity by JSON value equality; independence: every subscription has its own must / must-not sets in the model, so interference from a sibling subscription's acks, seeks, deletes or filters shows as a missing or not-rightful delivery on the victim; non-trivial = a pull response with >=2 messages on a topic with >=2 subscriptions with different filters; distinct by hash of the operation list",
         assumptions=['virtual clock: time.Now/Since/Until in actions/ and services/ are redirected by the build overlay', 'SQLite backend only', "every time comparison carries a 10 ms margin; anything inside a margin or inside the <1 s jitter window is 'may'"],
-        quick=dict(checks=400, timeout=1200),
+        quick=dict(checks=800, timeout=1200),
         thorough=dict(checks=600, shards=16, timeout=3000),
     ),
     "C03": dict(
@@ -59,7 +59,7 @@ PROPS = {
         level="exploration",
         rule="histories of real API calls drawn by a rapid state machine from the reference model's current state (virtual clock; profile C03), followed by a drain phase where stated; oracle: observation-driven reference model of Pub/Sub semantics (must / must-not / may sets per pull); biased to pull / ack / duplicate ack / foreign and unknown ids / nack-after-ack / modack-after-ack / sweeps / lease lapses; non-trivial = an acknowledged id is later nacked or modacked and >=2 later pulls see it as acked; distinct by hash of the operation list",
         assumptions=['virtual clock: time.Now/Since/Until in actions/ and services/ are redirected by the build overlay', 'SQLite backend only', "every time comparison carries a 10 ms margin; anything inside a margin or inside the <1 s jitter window is 'may'"],
-        quick=dict(checks=400, timeout=1200),
+        quick=dict(checks=500, timeout=1200),
         thorough=dict(checks=700, shards=16, timeout=3000),
     ),
     "C04": dict(
@@ -67,7 +67,7 @@ PROPS = {
         level="exploration",
         rule="histories of real API calls drawn by a rapid state machine from the reference model's current state (virtual clock; profile C04), followed by a drain phase where stated; oracle: observation-driven reference model of Pub/Sub semantics (must / must-not / may sets per pull); one or two subscriptions, retry policies absent / min only / max only / both from 100 ms to hours, up to 140 steps of pull / modack / nack / advance landing just before and just after each deadline; non-trivial = a message reaches attempt >=3 with at least one modack in between (sequential); >=2 pullers whose four transaction boundaries each are interleaved by the harness - all 70 merge orders for two pullers in the thorough tier, a third of them in quick, sampled orders for three pullers - inside one lease window (concurrent); distinct by hash of the operation list",
         assumptions=['virtual clock: time.Now/Since/Until in actions/ and services/ are redirected by the build overlay', 'SQLite backend only', "every time comparison carries a 10 ms margin; anything inside a margin or inside the <1 s jitter window is 'may'"],
-        quick=dict(checks=300, timeout=1200),
+        quick=dict(checks=800, timeout=1200),
         thorough=dict(checks=500, shards=16, timeout=3000),
     ),
     "C06": dict(
@@ -75,7 +75,7 @@ PROPS = {
         level="exploration",
         rule="histories of real API calls drawn by a rapid state machine from the reference model's current state (virtual clock; profile C06), followed by a drain phase where stated; oracle: observation-driven reference model of Pub/Sub semantics (must / must-not / may sets per pull); N in 1..4 and default, dead-letter topics with 0..3 subscriptions (filtered, ordered), deleted dead-letter topics, chains, pull / nack / modack / ack / advance / sweep in any order; self-loop topologies excluded by construction; non-trivial = history in which at least one message is forwarded to a dead-letter topic; distinct by hash of the operation list",
         assumptions=['virtual clock: time.Now/Since/Until in actions/ and services/ are redirected by the build overlay', 'SQLite backend only', "every time comparison carries a 10 ms margin; anything inside a margin or inside the <1 s jitter window is 'may'"],
-        quick=dict(checks=400, timeout=1200),
+        quick=dict(checks=1200, timeout=1200),
         thorough=dict(checks=700, shards=16, timeout=3000),
     ),
     "C13": dict(
@@ -83,7 +83,7 @@ PROPS = {
         level="exploration",
         rule="histories of real API calls drawn by a rapid state machine from the reference model's current state (virtual clock; profile C13), followed by a drain phase where stated; oracle: observation-driven reference model of Pub/Sub semantics (must / must-not / may sets per pull); publish / pull / partial ack / snapshot / seek to times (past, exact publish time, now, future) and to snapshots of the same or a same-filter sibling subscription, repeated seeks, then drain; non-trivial = a seek both acknowledges >=1 outstanding message and revives >=1 acknowledged message; distinct by hash of the operation list",
         assumptions=['virtual clock: time.Now/Since/Until in actions/ and services/ are redirected by the build overlay', 'SQLite backend only', "every time comparison carries a 10 ms margin; anything inside a margin or inside the <1 s jitter window is 'may'"],
-        quick=dict(checks=400, timeout=1200),
+        quick=dict(checks=600, timeout=1200),
         thorough=dict(checks=700, shards=16, timeout=3000),
     ),
     "C14": dict(
@@ -91,7 +91,7 @@ PROPS = {
         level="exploration",
         rule="histories of real API calls drawn by a rapid state machine from the reference model's current state (virtual clock; profile C14), followed by a drain phase where stated; oracle: observation-driven reference model of Pub/Sub semantics (must / must-not / may sets per pull); retention 10 min..30 d, TTL 1 d..60 d with expiration_policy updates, injected delay through the real DelayInjectorController, advances landing 30 ms before / after each deadline, expiry sweeps with batch 1 and 100; non-trivial = a retention, TTL or delay deadline is observed from the forbidden side (a pull that must not return the message / a sweep around a TTL) in a history that also delivers messages; distinct by hash of the operation list",
         assumptions=['virtual clock: time.Now/Since/Until in actions/ and services/ are redirected by the build overlay', 'SQLite backend only', "every time comparison carries a 10 ms margin; anything inside a margin or inside the <1 s jitter window is 'may'"],
-        quick=dict(checks=400, timeout=1200),
+        quick=dict(checks=1200, timeout=1200),
         thorough=dict(checks=700, shards=16, timeout=3000),
     ),
     "C16": dict(
@@ -105,7 +105,7 @@ PROPS = {
               "values on a populated server); distinct by hash of (method, request)"),
         assumptions=["a failing Pull / StreamingPull may still refresh subscriptions.expires_at (documented separate transaction)", "handler panics are caught by a recover shim placed innermost in the interceptor chain and counted as crashes",
                      "SQLite backend only"],
-        quick=dict(checks=400, timeout=900),
+        quick=dict(checks=1200, timeout=900),
         thorough=dict(checks=2500, shards=16, timeout=3000),
     ),
     "C09": dict(
@@ -121,7 +121,7 @@ PROPS = {
         assumptions=["faults are injected at the database/sql driver boundary (statement granularity); torn writes inside SQLite are SQLite's contract",
                      "Pull's refresh of subscriptions.expires_at is a deliberate separate transaction and may persist when the pull's second transaction fails",
                      "a cancellation that arrives while COMMIT is executing may yield either the old or the new state, never a mixture", "SQLite backend only; the PostgreSQL deadlock retry loop is driven with a synthetic 40P01 error"],
-        quick=dict(checks=5, timeout=900),
+        quick=dict(checks=8, timeout=900),
         thorough=dict(checks=12, shards=16, timeout=3000),
     ),
     "C12": dict(
@@ -134,7 +134,7 @@ PROPS = {
               "settings or ack ids and a re-created topic does not feed the old topic's subscriptions; non-trivial = live resources in >=2 related projects and a list walked over >1 page; "
               "distinct by hash of the operation list"),
         assumptions=["SQLite backend only (unique-violation mapping under a true race is PostgreSQL-only)", "virtual clock"],
-        quick=dict(checks=300, timeout=900),
+        quick=dict(checks=800, timeout=900),
         thorough=dict(checks=1200, shards=16, timeout=3000),
     ),
     "C17": dict(
@@ -150,7 +150,7 @@ PROPS = {
         assumptions=["ack_deadline_seconds is a derived field and not compared", "absent and empty retry policy / labels are equivalent", "negative durations are C16's domain, not generated here",
                      "storage exactness is for the SQLite text encoding; PostgreSQL's microsecond rounding cannot be observed here"],
         quick=dict(checks=1500, timeout=900),
-        thorough=dict(checks=20000, shards=16, timeout=3000),
+        thorough=dict(checks=20000, shards=16, timeout=3000, fuzz=[dict(target="FuzzC17Interval", seconds=120)]),
     ),
     "C15": dict(
         run="^TestC15$",
@@ -164,7 +164,7 @@ PROPS = {
         assumptions=["subscription expiry and the dead-letter sweep are part of the history itself, not of the spliced maintenance (they have client-visible semantics of their own: C14, C06)",
                      "after a rewinding seek that meets deliveries a prune-completed job may have removed, traces are no longer compared (README: acked messages are retained only until pruned); counted in excluded_by_construction",
                      "virtual clock; SQLite only"],
-        quick=dict(checks=250, timeout=1200),
+        quick=dict(checks=350, timeout=1200),
         thorough=dict(checks=500, shards=16, timeout=3000),
     ),
     "C18": dict(
@@ -219,7 +219,7 @@ PROPS = {
               "documented envelope (base64 payload equal as JSON value, attributes, messageId == Publish id, orderingKey, RFC 3339 publishTime, subscription, deliveryAttempt == push number), a "
               "success is final (never pushed again, delivery acknowledged in storage), any other outcome is followed by another push, concurrency seen by the endpoint <= min(1000, 1 + fast "
               "successes so far); non-trivial = a message failed at least once before succeeding and the window grew beyond 1; distinct by hash of the script"),
-        assumptions=["real clock (the pusher's fast/slow threshold and the HTTP round trip are wall-clock); retry policy 100-200 ms", "bounded waits with 3-of-3 confirmation for the 'pushed again' / 'pushed at all' clauses"],
+        assumptions=["real clock (the pusher's fast/slow threshold and the HTTP round trip are wall-clock); retry policy 400-500 ms (the lease must comfortably exceed the latency of the ack transaction, or a slow ack legitimately leads to a second push)", "bounded waits with 3-of-3 confirmation for the 'pushed again' / 'pushed at all' clauses"],
         quick=dict(checks=30, timeout=900),
         thorough=dict(checks=120, shards=8, timeout=3000),
     ),
